@@ -39,7 +39,7 @@ def load():
     for line in open(os.path.join(ROOT, "properties.jsonl")):
         p = json.loads(line)
         reg.properties[p["id"]] = {"title": p["title"]}
-    for modname in ("layer0", "ind_ma", "ind_simple", "ind_managed", "ind_chain", "movement", "geometry", "faithful", "accessors"):
+    for modname in ("layer0", "ind_ma", "ind_simple", "ind_managed", "ind_chain", "movement", "geometry", "faithful", "accessors", "driver"):
         m = importlib.import_module("contracts." + modname)
         for c in getattr(m, "CONTRACTS", []):
             reg.contracts[c.qualname] = c
@@ -51,6 +51,8 @@ def load():
             reg.func_tasks[key] = {"props": list(c.props), "qualname": qn, "contract": c}
         for key, d in getattr(m, "HEX_TASKS", {}).items():
             reg.func_tasks[key] = {"props": list(d["contract"].props), "qualname": d.get("qualname", key), "contract": d["contract"], "builder": d["builder"]}
+        for q, nat in getattr(m, "TASK_NATIVES", {}).items():
+            reg.func_tasks.setdefault(q, {"props": []})["natives"] = nat
         for k, v in getattr(m, "LOOPS", {}).items():
             reg.loops[k] = v
         for k, v in getattr(m, "NATIVES", {}).items():
